@@ -12,6 +12,7 @@
   first (`hint`), the registry's history, and the schedule of add / remove / recv / scan steps.
 -/
 import Hy.Proofs.Punch
+import Hy.Proofs.PunchSrv
 import Hy.Gen.Extras
 set_option linter.unusedSimpArgs false
 set_option linter.unusedVariables false
@@ -382,6 +383,217 @@ example : discover (fun _ => [7]) ⟨[], 1, [], [⟨none, ([], 0)⟩]⟩ [[1, 2,
 
 example : discover (fun _ => [7]) ⟨[], 2, [], [⟨some [9], ([1, 1, 1, 1], 5)⟩, ⟨some [1, 2, 3], ([10, 0, 0, 1], 4000)⟩]⟩
     [[1, 2, 3]] none = .ok (⟨[], 2, [], []⟩, .addrs [([10, 0, 0, 1], 4000)]) := by decide
+
+/-! ### ServerPuncher (extras/realm/server_punch.go): any number of concurrent Respond calls
+
+  `srun H (Srv.init (Conn.new n)) sched` is the state after an arbitrary schedule of the labels of
+  Hy.Model.PunchSrv: calls entering (`call k …` for any k), their lock regions and conn operations,
+  tickers, events, timeouts, cancellations, the deferred removal, the conn's reader and the
+  dispatch goroutine — in any interleaving. -/
+
+/-- attempt_always_removed: for EVERY schedule and EVERY outcome (success, timeout, cancellation,
+    duplicate, refused arguments, failed registration), when a Respond call has returned
+    (a) the conn operations it performed are exactly: nothing — or one AddPunchAttempt followed by
+        one RemovePunchAttempt of its id (the latter exactly for success / timeout / cancellation);
+    (b) whatever is registered on the conn under its id belongs to ANOTHER call that is in progress
+        now (a later attempt re-using the id) — never to the returned call. -/
+theorem attempt_always_removed (H : Bytes → Bytes) (hH : ∀ x, 0 < (H x).length) (n : Int)
+    (sched : List SLabel) (k : Nat) (o : Outcome)
+    (hret : ((srun H (Srv.init (Conn.new n)) sched).procs k).pc = .returned o) :
+    let s := srun H (Srv.init (Conn.new n)) sched
+    opsOf k s.connOps = (if addedOutcome o then [⟨k, true, (s.procs k).id⟩, ⟨k, false, (s.procs k).id⟩] else []) ∧
+    ∀ m, s.sys.conn.reg.get? (s.procs k).id = some m →
+      ∃ k', k' ≠ k ∧ s.pmap (s.procs k).id = some k' ∧ onConn (s.procs k').pc = true ∧ (s.procs k').md = m := by
+  have hinv := srv_init_run H hH n sched
+  generalize srun H (Srv.init (Conn.new n)) sched = s at hret hinv ⊢
+  obtain ⟨hown, hlogs, _⟩ := hinv
+  dsimp only
+  constructor
+  · rw [hlogs.ops k]
+    simp only [expectedOps, hret, wasRemoved, wasAdded]
+    cases addedOutcome o <;> simp
+  · intro m hm
+    have hr := hown.reg (s.procs k).id
+    rw [hm] at hr
+    simp only [regOf] at hr
+    cases hp : s.pmap (s.procs k).id with
+    | none => rw [hp] at hr; cases hr
+    | some k' =>
+      rw [hp] at hr
+      simp only [] at hr
+      split at hr
+      · rename_i hoc
+        injection hr with hr
+        refine ⟨k', ?_, rfl, hoc, hr.symm⟩
+        intro e
+        rw [e, hret] at hoc
+        simp [onConn] at hoc
+      · cases hr
+
+/-- a call that times out: registered, then unregistered before it returns -/
+def exTimeout : Srv := srun (fun _ => [7]) (Srv.init (Conn.new 1))
+  [.call 0 [1] exMeta [([10, 0, 0, 1], 4000)] true, .reg 0, .connAdd 0, .timeout 0, .connRemove 0, .pmapDelete 0]
+example : (exTimeout.procs 0).pc = .returned .timeout ∧ exTimeout.sys.conn.reg = [] ∧
+    exTimeout.connOps = [⟨0, true, [1]⟩, ⟨0, false, [1]⟩] := by decide
+
+/-- hence no stale diversion: once every call that was started has returned, the conn has no
+    registered attempt at all, and every packet that is not a STUN response — in particular every
+    punch packet of a finished attempt — is handed to QUIC -/
+theorem no_stale_diversion (H : Bytes → Bytes) (hH : ∀ x, 0 < (H x).length) (n : Int) (sched : List SLabel)
+    (hall : ∀ k, ((srun H (Srv.init (Conn.new n)) sched).procs k).pc = .idle ∨
+      ∃ o, ((srun H (Srv.init (Conn.new n)) sched).procs k).pc = .returned o) :
+    let s := srun H (Srv.init (Conn.new n)) sched
+    s.sys.conn.reg = [] ∧ ∀ p : PktIn, decodeStun p.sv = none → classify H s.sys.conn.reg p = .ok .pass := by
+  have hinv := srv_init_run H hH n sched
+  generalize srun H (Srv.init (Conn.new n)) sched = s at hall hinv ⊢
+  obtain ⟨hown, _, _⟩ := hinv
+  dsimp only
+  have hnil : s.sys.conn.reg = [] := by
+    apply reg_nil_of_get?
+    intro id
+    rw [hown.reg id]
+    simp only [regOf]
+    cases hp : s.pmap id with
+    | none => rfl
+    | some k =>
+      have hf := (hown.holds id k hp).2
+      rcases hall k with h | ⟨o, h⟩ <;> (rw [h] at hf; simp [inFlight] at hf)
+  refine ⟨hnil, ?_⟩
+  intro p hs
+  rw [hnil, classify_pass_iff H hH]
+  rintro (h | ⟨_, e, he, _⟩)
+  · rw [hs] at h; cases h
+  · cases he
+
+/-- registry_owned: at every moment, whatever the conn has registered under an id is the metadata of
+    the one call that holds that id in the puncher's map and is between its AddPunchAttempt and its
+    RemovePunchAttempt.  This is what makes the conn's "last add wins" map safe: no two calls ever
+    operate on the same id at the same time. -/
+theorem registry_owned (H : Bytes → Bytes) (hH : ∀ x, 0 < (H x).length) (n : Int) (sched : List SLabel)
+    (id : Id) (m : Meta) :
+    let s := srun H (Srv.init (Conn.new n)) sched
+    s.sys.conn.reg.get? id = some m ↔
+      ∃ k, s.pmap id = some k ∧ (s.procs k).id = id ∧ (s.procs k).md = m ∧ onConn (s.procs k).pc = true := by
+  have hinv := srv_init_run H hH n sched
+  generalize srun H (Srv.init (Conn.new n)) sched = s at hinv ⊢
+  obtain ⟨hown, _, _⟩ := hinv
+  dsimp only
+  rw [hown.reg id]
+  simp only [regOf]
+  constructor
+  · intro h
+    cases hp : s.pmap id with
+    | none => rw [hp] at h; cases h
+    | some k =>
+      rw [hp] at h
+      simp only [] at h
+      split at h
+      · rename_i hoc
+        injection h with h
+        exact ⟨k, rfl, (hown.holds id k hp).1, h, hoc⟩
+      · cases h
+  · rintro ⟨k, hp, _, hm, hoc⟩
+    rw [hp]
+    simp [hoc, hm]
+
+/-- duplicate_rejected_without_side_effect, the step: addAttempt's lock region on an id that is
+    held refuses the call and changes NOTHING else — not the conn, not the puncher's map, not any
+    other call, no packet is sent -/
+theorem duplicate_rejected_without_side_effect (H : Bytes → Bytes) (s : Srv) (k k' : Nat)
+    (hpc : (s.procs k).pc = .validated) (hheld : s.pmap (s.procs k).id = some k') :
+    let s' := sstep H s (.reg k)
+    (s'.procs k).pc = .returned .duplicate ∧ s'.sys = s.sys ∧ s'.pmap = s.pmap ∧ s'.sent = s.sent ∧
+    s'.connOps = s.connOps ∧ s'.disp = s.disp ∧ ∀ j, j ≠ k → s'.procs j = s.procs j := by
+  simp only [sstep, hpc, hheld, withPc]
+  refine ⟨by simp [setProc], trivial, trivial, trivial, trivial, trivial, ?_⟩
+  intro j hj
+  simp [setProc, hj]
+
+/-- …and the whole call: under every schedule, a call that returned "duplicate" has performed no
+    operation on the conn and has sent nothing, while the holder's registration is intact
+    (`registry_owned`) -/
+theorem duplicate_call_touched_nothing (H : Bytes → Bytes) (hH : ∀ x, 0 < (H x).length) (n : Int)
+    (sched : List SLabel) (k : Nat)
+    (hret : ((srun H (Srv.init (Conn.new n)) sched).procs k).pc = .returned .duplicate) :
+    let s := srun H (Srv.init (Conn.new n)) sched
+    opsOf k s.connOps = [] ∧ ∀ x ∈ s.sent, x.k ≠ k := by
+  have hinv := srv_init_run H hH n sched
+  generalize srun H (Srv.init (Conn.new n)) sched = s at hret hinv ⊢
+  obtain ⟨_, hlogs, _⟩ := hinv
+  dsimp only
+  constructor
+  · rw [hlogs.ops k]
+    simp [expectedOps, hret, wasRemoved, wasAdded, addedOutcome]
+  · intro x hx e
+    have := hlogs.sends x hx
+    rw [e, hret] at this
+    simp [wasAdded, addedOutcome] at this
+
+/-- a second call with a live id and OTHER metadata is refused; the conn keeps the first call's metadata -/
+def exDuplicate : Srv := srun (fun _ => [7]) (Srv.init (Conn.new 1))
+  [.call 0 [1] exMeta [([10, 0, 0, 1], 4000)] true, .reg 0, .connAdd 0,
+   .call 1 [1] ⟨List.replicate 32 49, List.replicate 64 48⟩ [([10, 0, 0, 2], 4000)] true, .reg 1, .connAdd 1]
+example : (exDuplicate.procs 1).pc = .returned .duplicate ∧ exDuplicate.sys.conn.reg = [([1], exMeta)] ∧
+    exDuplicate.sent.length = 1 := by decide
+
+/-- responds_to_hello_only_for_registered: under every schedule, every ack a call has sent answers
+    a packet the conn's reader classified as a punch event of that call's id, of type hello, whose
+    (usable) source address is the ack's destination, and that packet decoded as a hello under the
+    metadata of a call `k'` with that id that had been registered on the conn.  (`k'` is the sender
+    itself whenever no two calls used the same id — next theorem.) -/
+theorem responds_to_hello_only_for_registered (H : Bytes → Bytes) (hH : ∀ x, 0 < (H x).length) (n : Int)
+    (sched : List SLabel) (x : Send)
+    (hx : x ∈ (srun H (Srv.init (Conn.new n)) sched).sent) (ht : x.type = typeAck) :
+    let s := srun H (Srv.init (Conn.new n)) sched
+    ∃ p ev k', (p, Verdict.punch ev) ∈ s.sys.log ∧ ev.id = (s.procs x.k).id ∧ ev.type = typeHello ∧
+      ev.src = x.dst ∧ addrToAddrPort p.src = some x.dst ∧
+      (s.procs k').id = ev.id ∧ wasAdded (s.procs k').pc = true ∧
+      decode H p.data (s.procs k').md = .ok (typeHello, ev.padLen) := by
+  have hinv := srv_init_run H hH n sched
+  generalize srun H (Srv.init (Conn.new n)) sched = s at hx hinv ⊢
+  obtain ⟨_, _, hprov⟩ := hinv
+  dsimp only
+  obtain ⟨_, ev, hev, hid, hty, hsrc⟩ := hprov.acks x hx ht
+  obtain ⟨p, hp⟩ := mem_emitted s ev hev
+  obtain ⟨k', h1, h2, h3, h4⟩ := hprov.sound p ev hp
+  exact ⟨p, ev, k', hp, hid, hty, hsrc, by rw [← hsrc]; exact h4, h1, h2, by rw [← hty]; exact h3⟩
+
+/-- with attempt ids that are not re-used (the realm server draws them at random), the hello
+    decoded under the metadata of the very call that sent the ack -/
+theorem responds_to_own_hello (H : Bytes → Bytes) (hH : ∀ x, 0 < (H x).length) (n : Int)
+    (sched : List SLabel) (x : Send)
+    (hx : x ∈ (srun H (Srv.init (Conn.new n)) sched).sent) (ht : x.type = typeAck)
+    (huniq : ∀ k1 k2, ((srun H (Srv.init (Conn.new n)) sched).procs k1).pc ≠ .idle →
+      ((srun H (Srv.init (Conn.new n)) sched).procs k2).pc ≠ .idle →
+      ((srun H (Srv.init (Conn.new n)) sched).procs k1).id = ((srun H (Srv.init (Conn.new n)) sched).procs k2).id →
+      k1 = k2) :
+    let s := srun H (Srv.init (Conn.new n)) sched
+    ∃ p ev, (p, Verdict.punch ev) ∈ s.sys.log ∧ ev.src = x.dst ∧ addrToAddrPort p.src = some x.dst ∧
+      decode H p.data (s.procs x.k).md = .ok (typeHello, ev.padLen) := by
+  have hinv := srv_init_run H hH n sched
+  have hmain := responds_to_hello_only_for_registered H hH n sched x hx ht
+  generalize srun H (Srv.init (Conn.new n)) sched = s at hx hinv hmain huniq ⊢
+  obtain ⟨_, _, hprov⟩ := hinv
+  dsimp only at hmain ⊢
+  obtain ⟨p, ev, k', hp, hid, _, hsrc, haddr, hid', hwa, hdec⟩ := hmain
+  have hk : k' = x.k := huniq k' x.k (wasAdded_ne_idle hwa) (hprov.acks x hx ht).1 (by rw [hid', hid])
+  rw [hk] at hdec
+  exact ⟨p, ev, hp, hsrc, haddr, hdec⟩
+
+/-- a hello arrives for a call in progress: one ack, to the packet's source; the call completes and unregisters -/
+def exHello : Srv := srun (fun _ => [7]) (Srv.init (Conn.new 1))
+  [.call 0 [1] exMeta [([10, 0, 0, 1], 4000)] true, .reg 0, .connAdd 0,
+   .recv ⟨wire (fun _ => [7]) typeHello (List.replicate 16 0) (List.replicate 32 0) [] (List.replicate 8 5),
+          ⟨true, [10, 0, 0, 9], 4001⟩, ⟨false, false, false, none, none, []⟩, []⟩,
+   .scan, .dispTake, .dispLookup, .dispSend, .event 0, .connRemove 0, .pmapDelete 0]
+example : exHello.sent.filter (·.type == typeAck) = [⟨0, typeAck, ([10, 0, 0, 9], 4001)⟩] ∧
+    (exHello.procs 0).pc = .returned (.success ([10, 0, 0, 9], 4001) typeHello) ∧ exHello.sys.conn.reg = [] := by
+  decide
+
+/-- nothing in the composed system panics, under any schedule -/
+theorem server_puncher_no_panic (H : Bytes → Bytes) (hH : ∀ x, 0 < (H x).length) (n : Int) (sched : List SLabel) :
+    (srun H (Srv.init (Conn.new n)) sched).sys.panicked = false :=
+  (srv_init_run H hH n sched).1.nopanic
 
 /-! ### the same, for the SHA-256 the driver executes -/
 
